@@ -82,6 +82,16 @@ def replay_file(path):
     rep = json.load(open(path))
     print(f"replay of {rep['obligation']} (property {rep['property']})")
     print(rep.get("verifier_output", ""))
+    if rep.get("counterexample") and rep["obligation"].startswith("kani::"):
+        import kani_run
+        _, set_name, harness = rep["obligation"].split("::")
+        r = kani_run.native_replay(set_name, harness, rep["counterexample"]["byte_vectors"])
+        print(r["output"][-3000:])
+        if r["reproduced"]:
+            print(f"VIOLATION property={rep['property']} replay={path} (counterexample {rep['counterexample'].get('rendered')} reproduces on the real code)")
+            return 1
+        print("the recorded counterexample no longer fails on the current tree")
+        return 0
     w = find_witness(rep["obligation"])
     if w:
         rc, out, cmd = run_witness(*w)
